@@ -61,7 +61,7 @@ fn worker_body(engine: &'static dyn Engine, tier: Tier, seed: u64, from: u64, to
         let end = (i + batch).min(to);
         for run in i..end {
             let mut t = engine.gen(seed, run, tier);
-            if config != "default" {
+            if config != "default" && config != "std:off" {
                 t.set_meta("config", config.clone());
             }
             if emit_hashes {
@@ -476,7 +476,7 @@ fn process_range(engine: &dyn Engine, opts: &Opts, from: u64, to: u64) -> Merged
                     Some((i, how3, hang3)) => {
                         let mut t = engine.gen(opts.seed, i, opts.tier);
                         if let Some(c) = &opts.config {
-                            if c.name != "default" {
+                            if c.name != "default" && c.name != "std:off" {
                                 t.set_meta("config", c.name);
                             }
                         }
